@@ -35,7 +35,8 @@ def run_shard(spec: Dict[str, Any], journal: Any) -> Dict[str, Any]:
                               ['hex', 'bit', 'field'], 'hex', hidden=spec_hex.HIDDEN, keep_going=True)
     engines.cleanup_tmpdir()
     return {'counters': rec.counters, 'violations': rec.violations, 'hashes': rec.hashes, 'samples': rec.samples,
-            'evaluations': rec.counters.get('monitor_evaluations', 0)}
+            'evaluations': rec.counters.get('monitor_evaluations', 0),
+            'distinct_extra': rec.counters.get('distinct_operand_cases', 0)}
 
 
 def replay_case(record: Dict[str, Any], journal: Any) -> Dict[str, Any]:
@@ -66,7 +67,7 @@ def finalize(tier: str, seed: int, counters: Dict[str, Any], evaluations: int, d
                     '(e.g. all 65536 pairs of 8-bit operands), boundary-biased random otherwise - and random sequence programs of '
                     '4-40 applications over shared variables. at every SYNC every cell of every declared variable (destinations, '
                     'sources, cells beyond [:n], bystanders) and the branch marker are compared with the spec table transcribed '
-                    'from the macro doc comments. evaluation = one monitored macro application; distinct by (macro, n, w, binding)',
+                    'from the macro doc comments. evaluation = one monitored macro application; distinct = distinct (application, operand values read) pairs, counted by the monitor per program (programs are disjoint across shards) plus distinct programs',
             'macros_in_spec_table': len({s.macro for s in SPECS}),
             'spec_entries': len(SPECS),
         },
